@@ -342,8 +342,11 @@ static Result exec(const std::string& line) {
       if (!first) os << ",";
       first = false;
       const RIdx& re = *e;
-      const void* addr = &re.localIndexPair();
-      auto po = posOf.find(addr);
+      // locate the referenced pair without dereferencing the stored pointer (it may be null or stale):
+      // RemoteIndex::operator== compares the pointer and the attribute
+      auto po = posOf.end();
+      for (auto cand = posOf.begin(); cand != posOf.end(); ++cand)
+        if (re == RIdx(re.attribute(), static_cast<const PIS::IndexPair*>(cand->first))) { po = cand; break; }
       if (po == posOf.end()) {
         os << "?" << attrStr(re.attribute());
         bad << " neighbour " << q << ": entry does not reference an element of the index set;";
@@ -392,7 +395,10 @@ static Result exec(const std::string& line) {
         bool found = false;
         if (nb != ri.end())
           for (auto e = nb->second.first->begin(); e != nb->second.first->end(); ++e) {
-            if (!posOf.count(&e->localIndexPair())) continue;
+            bool valid = false;
+            for (auto& cand : posOf)
+              if (*e == RIdx(e->attribute(), static_cast<const PIS::IndexPair*>(cand.first))) valid = true;
+            if (!valid) continue;
             if (e->localIndexPair().global() == g && (int)e->attribute() == ok.second.at(g) &&
                 (int)e->localIndexPair().local().attribute() == o.held.at(g)) found = true;
           }
@@ -442,17 +448,31 @@ static std::string gen(Rng& r, long, const Args& a) {
   int maxG = thorough ? 14 : 9;
   int nG = (int)r.below(maxG + 1);
   if (r.coin(1, 12)) nG = (int)r.below(2);
-  int style = (int)r.below(4);                 // 0: one owner, rest overlap/copy; 1: + sometimes ownerless; 2: arbitrary; 3: all equal attr
+  int style = (int)r.below(4);   // 0: one owner, rest overlap/copy; 1: + sometimes ownerless; 2: arbitrary; 3: all equal attr
+  bool chain = size >= 3 && r.coin(1, 3);  // sparse neighbour graph: indices shared by consecutive ranks only
   int pdel = r.pick(std::vector<int>{0, 25, 50, 50, 75, 100});
   int padd = r.coin(1, 3) ? r.pick(std::vector<int>{15, 30, 60}) : 0;
+  if (chain && r.coin()) padd = r.pick(std::vector<int>{30, 60});
   int g = (int)r.range(-3, 3);
   for (int i = 0; i < nG; ++i) {
     if (i) os << ";";
     g += 1 + (r.coin(1, 3) ? (int)r.below(4) : 0);
     // holder subset
     std::vector<int> hs;
+    std::set<int> late;  // holders that do not hold the index at rebuild time (status a or n)
     int kind = (int)r.below(10);
-    if (kind < 2 || size == 1) hs.push_back((int)r.below(size));
+    if (chain) {
+      int p = (int)r.below(size);
+      hs.push_back(p);
+      if (p + 1 < size && r.coin(2, 3)) hs.push_back(p + 1);
+      if (padd && (int)r.below(100) < padd) {
+        // a hub announces copies on processes that may not know each other
+        for (int q = 0; q < size; ++q)
+          if (std::find(hs.begin(), hs.end(), q) == hs.end() && r.coin(2, 3)) { hs.push_back(q); late.insert(q); }
+        if (r.coin()) for (int q : hs) if (r.coin(1, 3)) late.insert(q);
+        std::sort(hs.begin(), hs.end());
+      }
+    } else if (kind < 2 || size == 1) hs.push_back((int)r.below(size));
     else if (kind < 4) { for (int p = 0; p < size; ++p) hs.push_back(p); }
     else {
       for (int p = 0; p < size; ++p) if (r.coin()) hs.push_back(p);
@@ -463,7 +483,6 @@ static std::string gen(Rng& r, long, const Args& a) {
     if (style == 1 && r.coin(1, 4)) own = -1;
     int eq = (int)r.below(3);
     os << g << "=";
-    bool anyBase = false;
     std::vector<std::string> toks;
     for (int p : hs) {
       int at;
@@ -472,11 +491,9 @@ static std::string gen(Rng& r, long, const Args& a) {
       else at = (p == own) ? 0 : 1 + (int)r.below(2);
       char st = 'k';
       if (at != 0 && (int)r.below(100) < pdel) st = 'd';
-      if (padd && (int)r.below(100) < padd) st = r.coin() ? 'a' : 'n';
-      if (st == 'k' || st == 'd') anyBase = true;
+      if (late.count(p) || (!chain && padd && (int)r.below(100) < padd)) st = r.coin() ? 'a' : 'n';
       toks.push_back(std::to_string(p) + ATTR[at] + st);
     }
-    (void)anyBase;
     os << join(toks.begin(), toks.end(), ",");
   }
   return os.str();
